@@ -11,10 +11,12 @@ import (
 	"fmt"
 	"io"
 	"os"
+	"path/filepath"
 	"regexp"
 	"slices"
 	"sort"
 	"strings"
+	"testing"
 
 	"github.com/gkampitakis/go-snaps/internal/colors"
 	"github.com/maruel/natural"
@@ -70,10 +72,16 @@ func init() {
 		saved := colors.NOCOLOR
 		colors.NOCOLOR = !o.Colour
 		before := r.sb.scan()
-		rawOut := vCaptureStdout(func() { Clean(nil, CleanOpts{Sort: o.Sort}) })
+		rawOut := vCaptureStdout(func() { Clean(new(testing.M), CleanOpts{Sort: o.Sort}) })
 		after := r.sb.scan()
 		colors.NOCOLOR = saved
 		rawOut = strings.ReplaceAll(rawOut, r.sb.root, vRoot) // virtual paths, as everywhere in the transcript
+		if wd, err := os.Getwd(); err == nil {
+			// (a summary that names files relative to the working directory names the same files)
+			if rel, err := filepath.Rel(wd, r.sb.root); err == nil && rel != "." {
+				rawOut = strings.ReplaceAll(rawOut, rel+string(filepath.Separator), vRoot+"/")
+			}
+		}
 		out := vAnsi.ReplaceAllString(rawOut, "")
 		flag.Set("test.count", "1")
 
